@@ -204,4 +204,4 @@ def solver(draw, allow_sp2=True, allow_pulay=True, eps_exp=(6, 10), fixed=True):
 
 
 def solver_labels(s):
-    return ["conv:%s" % s["conv"][0], "sp2:%s" % bool(s["sp2"][0])]
+    return ["conv:%s" % s["conv"][0], "sp2:%s" % bool(s["sp2"][0])]   # conv[0] stays the solver kind also for [k, a, "T_el", T]
